@@ -259,6 +259,10 @@ func (j *JA4Fingerprint) unmarshalSignatureAlgorithm(chs *utls.ClientHelloSpec) 
 	for _, e := range chs.Extensions {
 		if sae, ok := e.(*utls.SignatureAlgorithmsExtension); ok {
 			for _, a := range sae.SupportedSignatureAlgorithms {
+				if isGREASEUint16(uint16(a)) {
+					// GREASE values are ignored everywhere in JA4
+					continue
+				}
 				algo = append(algo, uint16(a))
 			}
 		}
